@@ -11,7 +11,7 @@ TABLE = {
     "C02": ("declarations equal the statement's numbers (DECL-1), cross-field rule evaluated abstractly over a finite partition of (child, command, type, canonical/non-canonical spelling) for all five versions against the accept/reject table of the statement (XFIELD-1), exception-escape analysis of MessageSchema.load (EEA-LOAD), literal decoding (LITERAL-1), every line decoded by MessageSchema.load in the step that dispatches it (FRESH-DECODE-1).", "which numerals Python's int() accepts is read as 'integer'; marshmallow built-in fields raise ValidationError only", "abstract evaluation over a finite partition + exception-escape analysis", "4 C02"),
     "C03": ("interprocedural exception-escape analysis of Gateway.listen under all five version contexts (dispatch tables, decorator chains, transports expanded to the built-ins): every (exception, raise site) pair that can escape is enumerated and must derive from AIOMySensorsError; HIER-1 class hierarchy; STATE-1 validate-then-commit for the protocol state.", "external summary table (sa/summaries.py); A1-A7", "exception-escape dataflow over the resolved call graph (ast + mypy facts)", "4 C03"),
     "C04": ("symbolic provenance of every registry write against the table of the statement (PROV-REG), guard-before-mutation with the right id in the error (GUARD-MUT), every path of a reporting handler records or delegates (MUST-REG), who-may-write (WHO-REG), listen loop shape and handler return values (LISTEN-1), the handler getter has no way around the handler table (DISPATCH-TOTAL), the reporting handlers refuse a message only for the reasons the statement names (REJECT-SET), Node / Child store constructor arguments as given (CTOR-ID), handler classes and the helpers of their modules keep no state / memo (HANDLER-STATE-1).", "Node/Child constructors beyond provenance; arrival order is the transport's", "symbolic provenance terms + CFG dominance", "4 C04"),
-    "C05": ("version table (TABLE-V), selection shape (SELECT-1), totality of the comparison for trailing sections (CMP-TOTAL), validate-then-commit and three-copies agreement (STATE-1, COPIES-1), type gate on the active module (GATE-1), learning sites as a path rule under the assumption child 255 / node 0 (LEARN-1), who-may-assign the version (WHO-VERSION).", "AwesomeVersion's ordering of arbitrary strings beyond the trailing-section fact (summary read from its source)", "table folding + shape recognisers + CFG", "4 C05"),
+    "C05": ("version table (TABLE-V), selection shape (SELECT-1), no selection by the spelling of the report (SELECT-SPELL), totality of the comparison for trailing sections (CMP-TOTAL), validate-then-commit and three-copies agreement (STATE-1, COPIES-1), type gate on the active module (GATE-1), learning sites as a path rule under the assumption child 255 / node 0 (LEARN-1), who-may-assign the version (WHO-VERSION).", "AwesomeVersion's ordering of arbitrary strings beyond the trailing-section fact (summary read from its source)", "table folding + shape recognisers + CFG", "4 C05"),
     "C06": ("reply table by symbolic provenance (REPLY-TABLE), unbuffered sends with None propagation (UNBUF-1), wrapper exactly once + finally (WRAP-EXACT), truth table of the wrapper condition over every internal type number (WRAP-COND), may-write effect per handler-table cell (WRITERS-1), dispatch on every path load -> yield (DISPATCH-1), no way around the handler table (DISPATCH-TOTAL), stateless handler classes (HANDLER-STATE-1), the version-known flag is set only by an accepted report (STATE-1).", "clock value; other formulations of the time payload are exit 2", "symbolic provenance + effect analysis over the handler table", "4 C06"),
     "C07": ("event rules on the CFG: park-or-write exactly one (PARK-1), flush reachable from exactly the wake cells per version (WAKE-1), node filter (FLUSH-NODE), send-then-remove once, unbuffered (FLUSH-ONCE), parked commands leave the buffer only by being written (WRITE-THEN-FORGET, loss-only), the buffer object is never replaced (BUFFER-ONCE), the flush always looks at the buffer (FLUSH-TOTAL).", "delivery at the transport is C17/C18", "event abstraction on the CFG + handler-table reachability", "4 C07"),
     "C08": ("WRITE-THEN-FORGET: removal dominated by the normal completion of the send of the same entry, no clear, no handler swallowing the transport error between write and listen (a handler re-raises only if every path through it raises), the flush always iterates the buffer (FLUSH-TOTAL).", "A1", "CFG dominance + exception-escape analysis", "4 C08"),
@@ -23,7 +23,7 @@ TABLE = {
     "C14": ("exception-escape analysis of Persistence.load with taint from json.loads through Schema.load into the pre_load hooks and nested schemas (EEA-PLOAD), handler order (HANDLER-ORDER), empty-file default (EMPTY-1), LOAD-GUARD (a failed load at context entry is not followed by a stop/save whose own failure replaces the read error); repository validators of schema fields are analysed as part of Schema.load; ENTER-ESC (escapes of Gateway.__aenter__ are library errors); TEMPLATE-1 (custom error templates use only placeholders marshmallow supplies - table parsed from the installed marshmallow sources).", "summary table; A5", "exception-escape analysis + taint", "4 C14"),
     "C15": ("INPLACE-1: the live persistence path is never opened for writing; it may only be the destination of an atomic replace whose source was written and closed before. INPLACE-2: nothing but the write of a precomputed text runs while a file is open for writing. LOAD-GUARD: a failed load is never followed by a save (directly or through a registered callback). INPLACE-3: the text written into the truncated file is always encodable. SAVE-SERIAL: no save runs as an independent or shielded task (two writers never interleave on the file). OPEN-FLAGS: an opener on a persistence open keeps the flags of the mode.", "POSIX rename atomicity; process death is the fault model", "who-may-open rule on resolved open() sites", "4 C15"),
     "C16": ("ENTER-ORDER, LIFE-1 cancel-then-await, LIFE-2 release on failed entry, LIFE-3 finally-discipline on exit, STOP-1, CADENCE-1, TASKS-1 (no unregistered task / shield), SAVE-TOTAL (save writes on every path), DISC-1 (stream attributes assigned only by connect), CONN-LEAK-1 (a failing transport connect leaves no task behind), SAVER-ESC (nothing but a write error or cancellation ends the saver task), ORDERED-IO (worker-thread file operations share one single-worker executor, so an operation abandoned by cancellation cannot run after the final save) - CFG path rules on __aenter__/__aexit__/start/stop/save/connect, helpers inlined.", "elapsed wall-clock time is not decided", "CFG path rules (must-pass-through, every-exit)", "4 C16"),
-    "C17": ("EEA-STREAM (escapes of connect/read/write are TransportErrors, none from disconnect), CONN-GUARD (None guard dominates every use), FRAME-1 (single readuntil(b'\\n') consumer, decode unmodified, single write+drain producer), FACTORY-1, ABSORB-1 (every stream operation of disconnect inside except OSError), OVERRIDE-1 (TCP/serial inherit the stream operations), RESYNC-1/2 (an over-long line is dropped and skipped), CLOSE-GRACEFUL (no abort() / SO_LINGER: bytes handed to the stream are not discarded by the transport), INIT-ATTRS (the stream attributes exist before connect).", "line framing for every chunking is delegated to asyncio.StreamReader.readuntil (trusted)", "exception-escape analysis + CFG dominance + single-consumer rule", "4 C17"),
+    "C17": ("EEA-STREAM (escapes of connect/read/write are TransportErrors, none from disconnect), CONN-GUARD (None guard dominates every use), GUARD-STABLE (no method resets a stream attribute that a suspended read dereferences again), FRAME-1 (single readuntil(b'\\n') consumer, decode unmodified, single write+drain producer), FACTORY-1, ABSORB-1 (every stream operation of disconnect inside except OSError), OVERRIDE-1 (TCP/serial inherit the stream operations), RESYNC-1/2 (an over-long line is dropped and skipped), CLOSE-GRACEFUL (no abort() / SO_LINGER: bytes handed to the stream are not discarded by the transport), INIT-ATTRS (the stream attributes exist before connect).", "line framing for every chunking is delegated to asyncio.StreamReader.readuntil (trusted)", "exception-escape analysis + CFG dominance + single-consumer rule", "4 C17"),
     "C18": ("TOPIC-MAP (symbolic string terms of both mapping functions, pass-through to publish, subscription list = Command values), FIFO-1, TASK-ESC, EEA-MQTT, LIFE-1 at disconnect.", "aiomqtt / broker semantics (summaries)", "symbolic string terms + exception-escape analysis + lifecycle rule", "4 C18"),
     "C19": ("MONO-1 (enum tables grow monotonically, rule constants equal), CHAIN-EQ (resolved handler chains equal for every ordered version pair modulo the differences the statement names), VERDEP-1 (no branch on the version value in handlers), EXCEPT-1 (the heartbeat / pre-sleep exception as stated), HANDLER-STATE-1 (handler classes keep no state shared between versions), REJECT-ORDER (an overriding handler decides the rejections it shares with the overridden definition in the same order).", "the five modules check one another; the MySensors specification is not available", "sibling cross-check of the resolved handler tables", "4 C19"),
 }
@@ -71,7 +71,7 @@ m = {
     ],
     "checks": claimed,
     "not_applicable": na,
-    "notes": "All checks are static (no repository code is executed; mypy type-checks it, ast parses it). Known genuine findings are listed in /verif/known_findings.json (2 open: C12 DRAIN-1, C15 INPLACE-1; 20 fix commits, 21 fixed entries). quick = rules on /repo + one combined canary tree; thorough = + the property's slice of the mutation matrix (174 breaking + 20 preserving variants + 353 independently seeded breaking patches + 9 refactoring-plus-break variants + 273 behaviour-preserving refactorings written by independent sub-agents; the full matrix (tools/run_mutants.py --all) additionally replays 8 seeded defects on which the target check must end as an analysis error, never as a pass, and 20 refactorings outside the modelled shapes on which no check may refute) + prune-off escape comparison.",
+    "notes": "All checks are static (no repository code is executed; mypy type-checks it, ast parses it). Known genuine findings are listed in /verif/known_findings.json (2 open: C12 DRAIN-1, C15 INPLACE-1; 20 fix commits, 21 fixed entries). quick = rules on /repo + one combined canary tree; thorough = + the property's slice of the mutation matrix (174 breaking + 20 preserving variants + 391 independently seeded breaking patches + 9 refactoring-plus-break variants + 273 behaviour-preserving refactorings written by independent sub-agents; the full matrix (tools/run_mutants.py --all) additionally replays 8 seeded defects on which the target check must end as an analysis error, never as a pass, and 20 refactorings outside the modelled shapes on which no check may refute) + prune-off escape comparison.",
 }
 json.dump(m, open(os.path.join(HERE, "MANIFEST.json"), "w"), indent=1)
 print("claimed:", [c["property_id"] for c in claimed])
